@@ -125,9 +125,14 @@ func (ex *explorer) finishJob() {
 }
 
 func (ex *explorer) worker(id int) {
-	m := &Machine{W: ex.w, Spec: ex.spec, S: solver.New("z3"),
+	sname := ex.spec.Solver
+	if sname == "" {
+		sname = "z3"
+	}
+	m := &Machine{W: ex.w, Spec: ex.spec, S: solver.New(sname),
 		reached: map[string]bool{}, stubs: map[string]int{}, funcs: map[*ssa.Function]int{},
 		intrCache: map[*ssa.Function]intrinsicFn{}, knownHit: map[string]bool{}}
+	m.S.IntMode = ex.spec.Arith == "int"
 	defer m.S.Close()
 	for {
 		j, ok := ex.take()
